@@ -196,7 +196,7 @@ def writer_problem(c, res, mr, ml):
         return 'stage activation: %s %s' % (res.get('err'), res.get('msg'))
     w = gen.cells_dict(res['weights']['cells'])
     outs = res['activation_outcomes']
-    exact = ml.get('bits', 9999) <= 53
+    exact = ml.get('bits', 9999) <= L.EXACT_BITS
     if len(res['activations']) != len(evs):
         return 'stage activation: %d columns for %d events' % (len(res['activations']), len(evs))
     for e_i, (cs, _) in enumerate(evs):
@@ -472,7 +472,7 @@ def run(rep, pool, driver, tier):
             w = gen.cells_dict(res['weights']['cells'])
             outs = res['activation_outcomes']
             evs = parse_lines(res['filtered_lines'])
-            exact = rep_l[k].get('bits', 9999) <= 53
+            exact = rep_l[k].get('bits', 9999) <= L.EXACT_BITS
             for e_i, (cs, _) in enumerate(evs):
                 for o_i, o in enumerate(outs):
                     terms = [w.get((o, cu), Fraction(0)) for cu in set(cs)]
